@@ -483,6 +483,16 @@ class C12(SolverSuite):
                 if all(l >= a_ and h <= b_ and l < h for l, h, a_, b_ in zip(nlo, nup, lo, up)):
                     i = rng.randint(1, len(lists[0]))
                     lists[0] = lists[0][:i] + [{"a": "S0", "op": "evq", "q": "setbounds_inner", "lower": nlo, "upper": nup}] + lists[0][i:]
+        if rng.random() < 0.05 and not actors["S0"].get("problem_obj") and actors["S0"].get("lower") is not None \
+                and actors["S1"].get("lower") is not None:
+            # S0's values are numpy scalars that differ by less than 1e-150 (products of such differences underflow);
+            # S1's objective has a numpy intermediate that underflows: both are silent under numpy's default error mode,
+            # and whatever one solver does must not change the mode the other's objective runs under
+            o0 = actors["S0"]["objective"]
+            actors["S0"]["objective"] = {"family": "scaled", "N": o0["N"], "inner": o0, "k": rng.choice([1e-160, 1e-170, 1e-200])}
+            actors["S0"]["value_type"] = "np.float64"
+            o1 = actors["S1"]["objective"]
+            actors["S1"]["objective"] = {"family": "npenv", "N": o1["N"], "inner": o1}
         for i in range(n_act):
             aid = "S%d" % i
             if rng.random() < 0.08 and not actors[aid].get("listeners"):
